@@ -685,3 +685,22 @@ fn c13_collect_rhat_matches_batch_formula_for_several_parameters() {
         }
     }
 }
+
+/// C15 — the isotropic Gaussian proposal's logp is the *normalised* log-density N(to; from, std^2 I).
+#[test]
+fn c15_isotropic_gaussian_logp_is_normalised() {
+    for (std, from, to) in [
+        (1.0f64, vec![0.0], vec![0.0]),
+        (1.0, vec![0.0, 0.0], vec![1.0, -2.0]),
+        (0.5, vec![1.0, 2.0, 3.0], vec![1.5, 1.0, 3.25]),
+        (3.0, vec![-1.0], vec![4.0]),
+    ] {
+        let q = IsotropicGaussian::<f64>::new(std);
+        let d = from.len() as f64;
+        let ssd: f64 = from.iter().zip(to.iter()).map(|(f, t)| (t - f) * (t - f)).sum();
+        let want = -ssd / (2.0 * std * std) - 0.5 * d * (2.0 * std::f64::consts::PI * std * std).ln();
+        let got = q.logp(&from, &to);
+        assert!((got - want).abs() <= 1e-12 * want.abs().max(1.0), "std {std}, from {from:?}, to {to:?}: logp {got}, normalised log-density {want}");
+        assert_eq!(q.logp(&from, &to), q.logp(&to, &from), "logp must be symmetric");
+    }
+}
